@@ -92,6 +92,11 @@ void appendShellEscapedString(llvm::raw_ostream& os, StringRef string) {
   static const std::string whitelist = "abcdefghijklmnopqrstuvwxyzABCDEFGHIJKLMNOPQRSTUVWXYZ1234567890-_/:@#%+=.,";
   auto pos = string.find_first_not_of(whitelist);
 
+  // A word that starts with '#' would be taken as a comment by the shell, so it
+  // has to be quoted even though '#' is harmless elsewhere in a word.
+  if (pos == std::string::npos && string.startswith("#"))
+    pos = 0;
+
   // We don't need any escaping just append the string and return.
   if (pos == std::string::npos) {
     os << string;
